@@ -8,7 +8,10 @@ is admissible only if the model can evict the entry at that point (it is not pin
 did not go to the store only if the model still has the entry.  Anything else prints
 `inadmissible-…` and shows up as a disagreement.
 
-usage: drv_cache [fix=snap] [fix=spill] [assert-safe]
+The set-cache model runs in the configuration of the code as it is (F10 and F17 repaired);
+`unfix=snap` / `unfix=spill` switch back to the behaviour before /repo commits d9a4d81 / b91d22f.
+
+usage: drv_cache [unfix=snap] [unfix=spill] [assert-safe]
 -/
 import QbiceVerif.Model.WideCache
 import QbiceVerif.Model.SetCache
@@ -247,7 +250,7 @@ partial def loop (h : IO.FS.Stream) (out : IO.FS.Stream) (dr : Drv) : IO Unit :=
   loop h out dr'
 
 def main (args : List String) : IO Unit := do
-  let cfg : SetCache.Cfg := ⟨args.contains "fix=snap", args.contains "fix=spill"⟩
+  let cfg : SetCache.Cfg := ⟨!args.contains "unfix=snap", !args.contains "unfix=spill"⟩
   let stdin ← IO.getStdin
   let stdout ← IO.getStdout
   loop stdin stdout { cfg := cfg, assertSafe := args.contains "assert-safe" }
